@@ -95,8 +95,20 @@ pub fn run(seed: u64, n: usize, driver: &str, out: &str) -> serde_json::Value {
             continue;
         }
         if let Some(c) = encoding_from_whatwg_label(e) {
-            if let Some(t) = sb_table(c) {
-                tables.push((e.clone(), t));
+            match sb_table(c) {
+                Some(t) => {
+                    // hypotheses of Proofs/SbFacts.v (sb_lazy_contract): no table entry is U+FEFF; bytes < 0x80 are themselves
+                    if t.split(',').any(|x| x == "65279") {
+                        diffs.push(json!({"what": "single-byte table contains U+FEFF: hypothesis NoFeff of sb_lazy_contract fails", "encoding": e}));
+                    }
+                    for b in 0u8..128 {
+                        if c.decode(&[b], DecoderTrap::Strict).ok() != Some((b as char).to_string()) {
+                            diffs.push(json!({"what": "single-byte codec does not map a byte < 0x80 to itself (sb_lookup)", "encoding": e, "byte": b}));
+                        }
+                    }
+                    tables.push((e.clone(), t));
+                }
+                None => diffs.push(json!({"what": "an encoding that is not in the multi-byte list is not a one-byte-one-character table decoder (SbModelled)", "encoding": e})),
             }
         }
     }
@@ -151,9 +163,9 @@ pub fn run(seed: u64, n: usize, driver: &str, out: &str) -> serde_json::Value {
         if !tables.is_empty() {
             let (e, tbl) = rng.pick(&tables).clone();
             let b = gen_bytes(&mut rng, &corpus, &e);
-            for (mode, trap) in [("STRICT", DecoderTrap::Strict), ("CHUNK", DecoderTrap::Strict), ("IGNORE", DecoderTrap::Ignore), ("REPLACE", DecoderTrap::Replace)] {
+            for (mode, trap) in [("STRICT", DecoderTrap::Strict), ("TEST", DecoderTrap::Strict), ("CHUNK", DecoderTrap::Strict), ("IGNORE", DecoderTrap::Ignore), ("REPLACE", DecoderTrap::Replace)] {
                 evals += 1;
-                let real = real_line(&decode(&b, &e, trap, false, mode == "CHUNK"));
+                let real = real_line(&decode(&b, &e, trap, mode == "TEST", mode == "CHUNK"));
                 let model = drv.decode_model(&format!("SB {} {} {}", tbl, mode, hex(&b)));
                 let cut = |l: &String| -> String { if l.starts_with("R ERR") { "R ERR".to_string() } else { l.clone() } };
                 if cut(&real) != cut(&model) {
